@@ -336,6 +336,15 @@ def run(tier, seed):
             rep.check(rid, len(skips) == 1 and M.match(("load", ("field", BR, "stream", ("param", 0))), skips[0].ops[0], {}) is not None and
                       M.match(("load", ("field", BR, "curr_file_remaining", ("param", 0))), skips[0].ops[1], {}) is not None,
                       "skip(reader->stream, reader->curr_file_remaining)", bn.file, None, function=bn.cname, obj="skip-args")
+            if len(skips) == 1:
+                # ... at its full width: a count that passes through an `int` on the way is another number for members of 2 GiB and more, and
+                # then what is skipped depends on how much of the member the caller happened to read
+                from ..rules import min_width_through_casts
+                wmin, origin = min_width_through_casts(bn, skips[0].ops[1])
+                od = bn.defn(origin)
+                ow = (mod.int_bits(od.ty) if od is not None else None) or 64
+                rep.check(rid, wmin is None or wmin >= ow, "the skip count reaches lha_input_stream_skip without being narrowed", skips[0].where(),
+                          None if (wmin is None or wmin >= ow) else "passes through a %d-bit type on its way from a %d-bit counter" % (wmin, ow), function=bn.cname, obj="skip-width")
             for rd in bn.calls("lha_file_header_read"):
                 cut = F.edges_with_fact(("eq", ("load", ("field", BR, "curr_file", ("param", 0))), 0))
                 for sk in skips:
@@ -352,7 +361,10 @@ def run(tier, seed):
                 ok = bool(fe) and all(any(o.block.id == s for o in ones) for (_, s) in fe)
                 rep.check(rid, ok, "failed skip sets eof = 1", sk.where(), None, function=bn.cname, obj="skip-fail")
             sts = stores_to_field(mod, BR, "curr_file_remaining", [bn])
-            rep.check(rid, len(sts) == 1 and M.match(("load", ("field", HDR, "compressed_length", ANY)), sts[0].ops[0], {}) is not None,
+            # exactly one store gives the counter a member's size: the compressed length of the header just read; any other store is a reset to 0
+            # (nothing left of a member that has been skipped or abandoned)
+            inits = [x for x in sts if not (is_const(x.ops[0]) and const_val(x.ops[0]) == 0)]
+            rep.check(rid, len(inits) == 1 and M.match(("load", ("field", HDR, "compressed_length", ANY)), inits[0].ops[0], {}) is not None,
                       "curr_file_remaining = curr_file->compressed_length", bn.file, None, function=bn.cname, obj="init-remaining")
         rid = rep.rule("R3b", "lha_basic_reader_read_compressed: bytes = min(buf_len, remaining); remaining -= bytes exactly when those bytes were read; returns bytes", 4)
         rc = rep.need(rid, mod.fn("lha_basic_reader_read_compressed"), "function lha_basic_reader_read_compressed")
